@@ -22,7 +22,7 @@ PROPS = {
     },
     "C03": {
         "suites": ["cluster", "pair", "apply", "wire"],
-        "level_text": "C03_integrity (every entry of every copy in every reachable state, KF-1 deliveries included, is the owner's write at that version; no copy's max version or watermark exceeds the owner's max version), C03_owner_is_frontier, C03_deltas_not_ahead, C03_gossip_never_changes_owner, C03_no_crosswire, C03_heartbeat_bound; same inductive system invariant as C02 (weak part, unconditional). Tied by the cluster suite's ledger monitor (entries vs the owner's recorded writes, max version and heartbeat bounds) and the wire/apply suites (op grouping per member).",
+        "level_text": "C03_integrity (every entry of every copy in every reachable state, KF-1 deliveries included, is the owner's write at that version; no copy's max version or watermark exceeds the owner's max version), C03_owner_is_frontier, C03_deltas_not_ahead, C03_gossip_never_changes_owner, C03_no_crosswire, C03_heartbeat_bound; same inductive system invariant as C02 (weak part, unconditional). Tied by the cluster suite's ledger monitor (entries vs the owner's recorded writes, max version and heartbeat bounds) and the wire/apply suites (op grouping per member). The step relation includes honest external catch-ups; C03_catchup_keeps_integrity states that case on its own (in any reachable state, feeding one holder's copy through reset_node_state_if_update on another leaves a copy that holds only the owner's writes and is not ahead of the owner).",
         "level_note": _COMMON_NOTE + "The heartbeat bound is proved at the level of try_set_heartbeat (a recorded heartbeat is a reported one); its system-level induction is covered by the monitor. Assumes one incarnation per ChitchatId.",
         "assumptions": ["every ChitchatId is used by one incarnation"],
     },
